@@ -210,3 +210,57 @@ Qed.
 Theorem block_fee_exact fees :
   i64_min <= exact_sum fees <= i64_max -> block_fee fees = exact_sum fees.
 Proof. apply wsum_exact. Qed.
+
+(* ---------- every type that reaches the fee check, whatever its output check ---------- *)
+
+Theorem fee_check_bounds k pr refs outs f :
+  0 <= p_minfee pr -> check_fee k pr refs outs = Some f ->
+  exact_sum outs <= exact_sum refs.
+Proof.
+  intros Hm E. apply check_fee_some in E. destruct E as (E & _ & Hk). destruct k; lia.
+Qed.
+
+(* ---------- types that end early with outputs ---------- *)
+
+Theorem sidepow_new_creates_nothing outs :
+  sidepow_new_outputs_ok outs = true -> exact_sum (map o_val outs) = 0.
+Proof.
+  destruct outs as [|o [|o' outs]]; cbn [sidepow_new_outputs_ok]; try discriminate.
+  rewrite andb_true_iff, Z.eqb_eq. intros [E _]. cbn [map exact_sum fold_right]. lia.
+Qed.
+
+Lemma mod_le_self a : 0 <= a -> a mod M <= a.
+Proof. intros Ha. apply Z.mod_le; lia. Qed.
+
+(* an accepted appropriation moves CR assets, it does not create value *)
+Theorem approp_moves_not_creates pr h0 h1 needed amount outs refs :
+  accept_approp pr h0 h1 needed amount outs refs = true ->
+  Forall (fun o => o_val o <= i64_max) outs ->
+  Forall (fun r => 0 <= fst r) refs ->
+  exact_sum (map o_val outs) <= exact_sum (map fst refs) /\
+  (exact_sum (map fst refs) <= i64_max ->
+   exact_sum (map o_val outs) = exact_sum (map fst refs)) /\
+  Forall (fun r => snd r = true) refs.
+Proof.
+  unfold accept_approp, approp_outputs_ok, approp_special_ok.
+  rewrite !andb_true_iff. intros [[[[Hn _] _] Hstd] [[[_ Htag] Hsum] _]] Hmax Hpos.
+  apply Z.eqb_eq in Hn, Hsum.
+  destruct outs as [|a [|b [|c outs]]]; cbn [length] in Hn; try lia.
+  cbn [forallb] in Hstd. rewrite !andb_true_iff in Hstd. destruct Hstd as [Ha [Hb _]].
+  unfold std_output_ok in Ha, Hb. rewrite !andb_true_iff, Z.leb_le in Ha, Hb.
+  assert (Ha0 : 0 <= o_val a) by tauto. assert (Hb0 : 0 <= o_val b) by tauto.
+  inversion Hmax as [|? ? Ha1 Hmax']; subst. inversion Hmax' as [|? ? Hb1 _]; subst.
+  cbn [map] in *.
+  assert (Ho : exact_sum [o_val a; o_val b] = o_val a + o_val b) by (cbn; lia).
+  assert (Hr : 0 <= exact_sum (map fst refs)).
+  { apply exact_sum_nonneg. apply Forall_forall. intros x Hx. apply in_map_iff in Hx.
+    destruct Hx as [r [<- Hr]]. rewrite Forall_forall in Hpos. apply Hpos, Hr. }
+  assert (Hmod : exact_sum (map fst refs) mod M = (o_val a + o_val b) mod M).
+  { rewrite <- Ho, <- !wsum_mod, Hsum. reflexivity. }
+  unfold i64_max in *.
+  rewrite (Z.mod_small (o_val a + o_val b)) in Hmod by lia.
+  pose proof (mod_le_self _ Hr) as Hle.
+  rewrite Ho. split; [lia|]. split.
+  - intros Hsmall. rewrite Z.mod_small in Hmod by lia. lia.
+  - apply Forall_forall. intros r Hin. rewrite forallb_forall in Htag. apply Htag, Hin.
+Qed.
